@@ -91,7 +91,8 @@ def run_case(case, ctx):
     nap = 1 if pkg['apertures'] is None else len(pkg['apertures'])
     f32 = pkg['cube_dtype'] == 'f4'
     permuted = pkg['perm'] != sorted(pkg['perm'])
-    labels = {'storage_' + pkg['storage'], 'n_ap>1' if nap > 1 else 'n_ap=1', 'apdep' if pkg['apdep'] else 'not_apdep'}
+    labels = {'storage_' + pkg['storage'], 'n_ap>1' if nap > 1 else 'n_ap=1', 'apdep' if pkg['apdep'] else 'not_apdep',
+              'sed_unit_' + pkg.get('sed_unit', 'mJy').replace(' ', '_'), 'cube_unit_' + pkg.get('cube_unit', 'mJy')}
     if f32:
         labels.add('float32_cube')
     if permuted:
